@@ -6,7 +6,7 @@
 From Coq Require Import List ZArith NArith String Bool.
 From SCC Require Import Base.Sexp Lang.FunSyn Lang.CoreSyn Lang.AxSyn Lang.AxSize Lang.FsSize Lang.CoreSize
      Model.Fun2Core Model.Focus Model.Shrink Model.SizeDefs Model.Linearize Model.Backend
-     Model.Uniquify Proof.Fun2CoreProof Proof.SizeLin Proof.SizeCodegen Proof.SizeShrink Proof.SizeFocus.
+     Model.Uniquify Proof.Fun2CoreProof Proof.SizeLin Proof.SizeCodegen Proof.SizeShrink Proof.SizeFocus Proof.SizeGen Proof.SizeUniquify.
 Import ListNotations.
 Open Scope N_scope.
 
@@ -184,3 +184,16 @@ Theorem C19_focus_size_partial : forall p p1 q,
   uniquify_prog p = Backend.Ok p1 -> focus_prog p = Backend.Ok q -> fs_wprog q <= 4 * c_wprog p1.
 Proof. exact focus_prog_size_partial_lemma. Qed.
 Print Assumptions C19_focus_size_partial.
+
+(* ---------- round 2: the renaming pass and the unconditional focusing bound ---------- *)
+(* `uniquify` (first half of Prog::focus) replaces variables by variables and renames binders: it
+   preserves the weighted size and the node count exactly (Proof/SizeUniquify.v) *)
+Theorem C19_uniquify_size : forall p p1, uniquify_prog p = Backend.Ok p1 ->
+  c_wprog p1 = c_wprog p /\ size_cprog p1 = size_cprog p.
+Proof. exact uniquify_size_lemma. Qed.
+Print Assumptions C19_uniquify_size.
+
+(* the stated focus_size_statement, with c2 = 4: Prog::focus at most quadruples the weighted size *)
+Theorem C19_focus_size : focus_size_statement 4.
+Proof. exact focus_prog_size_lemma. Qed.
+Print Assumptions C19_focus_size.
